@@ -29,12 +29,14 @@ def run(ctx):
     pdir, plans = ctx.tlc_plans(fam, "Shard_Gen", "Shard_Gen.cfg", num=ctx.q(120, 1500), depth=16)
     # 3. execute against the real code
     binary = ctx.go_build("c17")
-    rt, mp, rc = ctx.path("route.ndjson"), ctx.path("maps.ndjson"), ctx.path("races.ndjson")
+    rt, mp, rc, pr = (ctx.path("route.ndjson"), ctx.path("maps.ndjson"), ctx.path("races.ndjson"),
+                      ctx.path("pressure.ndjson"))
     out = ctx.harness(binary, ["-plans", pdir, "-out", rt, "-maps", mp, "-races", rc, "-seed", ctx.seed,
+                               "-pressure", pr, "-npress", ctx.q(240, 6000),
                                "-nrace", ctx.q(4000, 80000), "-nracekeep", ctx.q(900, 20000),
                                "-nroutecold", ctx.q(150, 3000), "-nrand", ctx.q(16, 120), "-nextra", ctx.q(2, 24),
                                "-hist", ctx.q(150, 4000), "-maxops", ctx.q(60, 200)],
-                      traces=[rt, mp, rc])
+                      traces=[rt, mp, rc, pr])
     # 4. validate what the real code did
     route = ctx.load_traces(rt)
     maps = ctx.load_traces(mp)
@@ -43,6 +45,10 @@ def run(ctx):
     rj += ctx.validate(fam, "Shard_Trace", "Shard_Trace.cfg", maps, label="containers", chunk=30000,
                        max_rejections=14)
     rj += ctx.validate(fam, "Shard_Trace", "Shard_Trace.cfg", races, label="races", chunk=20000)
+    # every shard of a wide LRU kept at its capacity limit must evict as the unsharded LRU does
+    press = ctx.load_traces(pr)
+    rj += ctx.validate("lru", "LRU_Trace", "LRU_Trace.cfg", press, label="sharded-lru-pressure", chunk=20000)
+    ctx.extra["pressure_traces"] = len(press)
     # sharded key lockers and semaphore maps must answer lock requests as the unsharded ones: the
     # schedules of C02 / C01 are replayed on the sharded variants only and judged by their trace specs
     # (KeyLockObs / Semap_Trace are the unsharded structures' contracts)
